@@ -43,6 +43,8 @@ int g_res_f, g_res_A, g_res_x, g_res_r; unsigned long g_res_xver, g_res_rver;
 unsigned long g_res_calls;
 /* last precond apply: input/output ids and version of the output */
 int g_papply_in, g_papply_out; unsigned long g_papply_outver; unsigned long g_papply_calls;
+/* last axpby(a,x,b,y) */
+V g_ax_a, g_ax_b; int g_ax_x, g_ax_y; unsigned long g_ax_calls, g_ax_xver;
 /* clear() */
 int g_clear_id; unsigned long g_clear_calls;
 /* generic call trace (kind, a, b, c) for call-sequence postconditions */
@@ -74,8 +76,10 @@ __CPROVER_ensures(y->defined && y->version == __CPROVER_old(y->version) + 1);
 /* y = a x + b y */
 void bk_axpby(V a, const vec *x, V b, vec *y)
 __CPROVER_requires(x->defined && (math_is_zero(b) || y->defined) && !y->readonly)
-__CPROVER_assigns(y->defined, y->version)
-__CPROVER_ensures(y->defined && y->version == __CPROVER_old(y->version) + 1);
+__CPROVER_assigns(y->defined, y->version, g_ax_a, g_ax_b, g_ax_x, g_ax_y, g_ax_calls, g_ax_xver)
+__CPROVER_ensures(y->defined && y->version == __CPROVER_old(y->version) + 1)
+__CPROVER_ensures(g_ax_a == a && g_ax_b == b && g_ax_x == x->id && g_ax_y == y->id && g_ax_xver == x->version)
+__CPROVER_ensures(g_ax_calls == __CPROVER_old(g_ax_calls) + 1);
 
 /* z = a x + b y + c z */
 void bk_axpbypcz(V a, const vec *x, V b, const vec *y, V c, vec *z)
@@ -143,6 +147,13 @@ __CPROVER_ensures(g_papply_calls == __CPROVER_old(g_papply_calls) + 1);
 /* amgcl::detail::eps<T>(n) */
 V __CPROVER_uninterpreted_eps(unsigned long);
 #define EPS(n) __CPROVER_uninterpreted_eps((unsigned long)(n))
+
+/* every ghost variable of the typestate contracts (for assigns clauses) */
+#define ORCH_GHOSTS g_last_norm_val, g_last_norm_id, g_last_norm_ver, g_norm_calls, g_norm_id0, g_norm_id1, \
+  g_res_f, g_res_A, g_res_x, g_res_r, g_res_xver, g_res_rver, g_res_calls, \
+  g_papply_in, g_papply_out, g_papply_outver, g_papply_calls, g_clear_id, g_clear_calls, \
+  g_ax_a, g_ax_b, g_ax_x, g_ax_y, g_ax_calls, g_ax_xver
+#define ORCH_GHOSTS_ZERO (g_norm_calls == 0 && g_res_calls == 0 && g_clear_calls == 0 && g_papply_calls == 0 && g_ax_calls == 0)
 
 /* marks an expression whose arithmetic was rewritten to UF form by the extractor */
 #define UFE(e) (e)
